@@ -70,17 +70,27 @@ func (c *wsConn) tryDelete(s *Subscription) {
 	s.traverse(gcStateDelete, func(s *Subscription, state gcState) gcState {
 		r := refs[s.RID()]
 
-		if r.state >= gcStateKeep {
+		// A reference kept as sent is final. One marked to be unsent may
+		// still be found to stay sent, when reached through a reference
+		// that is kept as sent.
+		if r.state == gcStateKeep || (r.state == gcStateUnsend && state != gcStateKeep) {
 			return gcStateStop
 		}
 
-		if r.indirect > 0 || state == gcStateKeep {
+		// Referenced by a subscription that is kept as sent: the client
+		// still holds it through that one.
+		if state == gcStateKeep {
+			r.state = gcStateKeep
+			return gcStateKeep
+		}
+
+		if r.indirect > 0 || state == gcStateUnsend {
 			if sent && r.indirectsent == 0 {
 				r.state = gcStateUnsend
 			} else {
 				r.state = gcStateKeep
 			}
-			return gcStateKeep
+			return r.state
 		}
 
 		if r.state != gcStateNone {
